@@ -180,11 +180,16 @@ def check_buf(prop, tier, seed, scale=1.0):
             sums += r["summaries"]
             crashes += r["crashes"]
             per_variant[v + ":" + profile] = sum(s.get("runs", 0) for s in r["summaries"])
+    # E-miri(buf): the same nests and operations interpreted by Miri (no SimAlloc): out-of-bounds and
+    # uninitialised *reads*, invalid pointers and leaks in the Buf / BufMut implementations
+    mfound, miri_cov = miri_seq_tier(prop, tier, seed, scale, specs[0][0], pkg="buf")
+    found += mfound
     n_unknown = handle_violations(prop, "buf", found, tier)
     tot = C.merge_summaries(sums)
     wall = time.time() - t0
     cov = {
         "evaluations": tot["runs"],
+        "miri_tier": miri_cov,
         "distinct_nontrivial": len(tot["nontrivial"]),
         "rule": RULES["buf"].replace("<=N", "<=%d" % steps_max),
         "samples": tot["samples"][:2] or [{"note": "no sample recorded"}],
@@ -333,10 +338,10 @@ def miri_classify(rc, out, err):
     return (["C05"], "miri:failed", m[:400])
 
 
-def miri_seq_run(args, miri_seed, timeout=1500):
+def miri_seq_run(args, miri_seed, timeout=1500, pkg="seq"):
     env = dict(C.ENV)
     env["MIRIFLAGS"] = "-Zmiri-seed=%d -Zmiri-disable-isolation" % miri_seed
-    cmd = ["cargo", "+nightly", "miri", "run", "--offline", "-q", "-p", "seq", "--no-default-features", "--features", "std",
+    cmd = ["cargo", "+nightly", "miri", "run", "--offline", "-q", "-p", pkg, "--no-default-features", "--features", "std",
            "--target-dir", os.path.join(C.TARGET, "miri-seq"), "--"] + args
     for t in (timeout, timeout * 3):
         try:
@@ -347,7 +352,7 @@ def miri_seq_run(args, miri_seed, timeout=1500):
     return ("timeout", "", "")
 
 
-def miri_seq_tier(prop, tier, seed, scale, profile="std"):
+def miri_seq_tier(prop, tier, seed, scale, profile="std", pkg="seq"):
     """E-miri(seq): the E-seq workloads with SimAlloc compiled out, interpreted by Miri — any UB on
     the executed path of the crate (out-of-bounds, use-after-free, invalid from_raw_parts, layout
     mismatch at dealloc, uninitialised reads, Stacked Borrows) and any leak is reported by Miri;
@@ -358,13 +363,16 @@ def miri_seq_tier(prop, tier, seed, scale, profile="std"):
     steps = 20
     n_proc = max(16, int((16 if tier == "quick" else 640) * scale))
     # build once (first invocation compiles)
-    miri_seq_run(["batch", "--seed", "1", "--from", "0", "--to", "0"], 0)
+    miri_seq_run(["batch", "--seed", "1", "--from", "0", "--to", "0"], 0, pkg=pkg)
+    if pkg == "buf":
+        tag = 960
+        n_proc = max(16, int((16 if tier == "quick" else 320) * scale))
     jobs = [(i, C.mix_py(seed, tag, i) & 0xffffffff) for i in range(n_proc)]
 
     def work(job):
         i, mseed = job
         args = ["batch", "--seed", str(seed), "--tag", str(tag), "--from", str(i * per), "--to", str((i + 1) * per), "--profile", profile, "--steps", str(steps)]
-        return job, args, miri_seq_run(args, mseed)
+        return job, args, miri_seq_run(args, mseed, pkg=pkg)
 
     found, runs, steps_done = [], 0, 0
     with ThreadPoolExecutor(max_workers=C.NCPU) as ex:
@@ -382,17 +390,19 @@ def miri_seq_tier(prop, tier, seed, scale, profile="std"):
                     steps_done += j.get("steps", 0)
                 elif j.get("type") == "violation":
                     j["engine"] = "miri-seq"
-                    j["miri"] = {"args": args, "seed": mseed}
+                    j["miri"] = {"args": args, "seed": mseed, "pkg": pkg}
                     found.append(("miri", j))
             if rc != 0:
                 cls = miri_classify(rc, "", err)
                 props, kind, detail = cls if cls else (["C02"], "miri:failed", "exit %s" % rc)
                 props = ["C02", "C13"] if "undefined" in kind or "failed" in kind else (["C03"] if "leak" in kind else ["C02"])
+                if pkg == "buf":
+                    props = [prop, "C02"]
                 found.append(("miri", {"engine": "miri-seq", "profile": profile, "run": i, "seed": mseed, "cfg": {}, "ops": [],
-                                       "miri": {"args": args, "seed": mseed},
+                                       "miri": {"args": args, "seed": mseed, "pkg": pkg},
                                        "violations": [{"props": props, "kind": kind, "detail": detail, "step": 0}]}))
     return found, {"executions": runs, "steps": steps_done, "processes": n_proc,
-                   "note": "E-seq histories (<=%d steps) interpreted by Miri without SimAlloc; Miri's UB and leak detection are the oracle" % steps}
+                   "note": "E-%s runs (<=%d steps) interpreted by Miri without SimAlloc; Miri's UB and leak detection are the oracle" % (pkg, steps)}
 
 
 def miri_build():
